@@ -693,6 +693,15 @@ func (t *Translator) applyContract(st *State, callee *ssa.Function, spec *FuncSp
 			if len(tags) == 0 {
 				tags = t.safetyTags
 			}
+			if root := t.root(); root.spec != nil && root.spec.NoSafety {
+				// thin contract: callee preconditions are not checked either; they are assumed to hold (stated in the note)
+				if !root.noSafetyNoted {
+					root.noSafetyNoted = true
+					t.vc.note("panic-freedom of the body of %s and the preconditions of its callees are not checked (contract marked nosafety)", root.short)
+				}
+				t.assume(st, g(f))
+				continue
+			}
 			t.oblige(st, "call.requires@"+label, "", tags, g(f), t.w.pos(pos), c.Src)
 		}
 	}
@@ -1131,6 +1140,12 @@ func (t *Translator) appendCall(st *State, in *ssa.Call) {
 	q := fmt.Sprintf("i!c%d", t.vc.fresh())
 	ls, lx := slLen(so, s), slLen(so, x)
 	t.assume(st, "(forall (("+q+" Int)) (! (= (select "+na+" "+q+") (ite (< "+q+" "+ls+") (select "+slArr(so, s)+" "+q+") (select "+slArr(so, x)+" (- "+q+" "+ls+")))) :pattern ((select "+na+" "+q+"))))")
+	// the same facts, triggered from the operands: an element of s or x is an element of the result (gives existential
+	// witnesses such as "the i-th new element sits at len(s)+i")
+	q2 := fmt.Sprintf("i!c%d", t.vc.fresh())
+	t.assume(st, "(forall (("+q2+" Int)) (! (=> (and (<= 0 "+q2+") (< "+q2+" "+ls+")) (= (select "+na+" "+q2+") (select "+slArr(so, s)+" "+q2+"))) :pattern ((select "+slArr(so, s)+" "+q2+"))))")
+	q3 := fmt.Sprintf("i!c%d", t.vc.fresh())
+	t.assume(st, "(forall (("+q3+" Int)) (! (=> (<= 0 "+q3+") (= (select "+na+" (+ "+q3+" "+ls+")) (select "+slArr(so, x)+" "+q3+"))) :pattern ((select "+slArr(so, x)+" "+q3+"))))")
 	r := t.vc.freshConst("app", so)
 	t.assume(st, "(= "+r+" "+slMk(so, na, "(+ "+ls+" "+lx+")", "(and "+slNil(so, s)+" (= "+lx+" 0))")+")")
 	t.vals[in] = r
